@@ -35,6 +35,22 @@ func Start(portBase int, ns string, partNum int, engine string) (*Inst, error) {
 // StartWithout is Start, but the partition `missing` (if >= 0) is not hosted by this server
 // (Nodes[missing] is nil): commands routed to it must be rejected.
 func StartWithout(portBase int, ns string, partNum int, engine string, missing int) (*Inst, error) {
+	var hosted []int
+	for i := 0; i < partNum; i++ {
+		if i != missing {
+			hosted = append(hosted, i)
+		}
+	}
+	return StartHosting(portBase, ns, partNum, engine, hosted)
+}
+
+// StartHosting starts a server that hosts only the listed partitions of the namespace
+// (Nodes[i] is nil for the others).
+func StartHosting(portBase int, ns string, partNum int, engine string, hostedList []int) (*Inst, error) {
+	isHosted := map[int]bool{}
+	for _, h := range hostedList {
+		isHosted[h] = true
+	}
 	tmpDir, err := ioutil.TempDir("", "verif-srv-")
 	if err != nil {
 		return nil, err
@@ -62,7 +78,7 @@ func StartWithout(portBase int, ns string, partNum int, engine string, missing i
 	replica.ReplicaID = 1
 	replica.RaftAddr = raftAddr
 	for i := 0; i < partNum; i++ {
-		if i == missing {
+		if !isHosted[i] {
 			inst.Nodes = append(inst.Nodes, nil)
 			continue
 		}
